@@ -32,14 +32,14 @@ SPEC_MODULES = {
 
 
 def _run_unit(arg):
-    modname, idx, tier = arg
+    modname, idx, tier, prefix = arg
     from segvc import unit as U
 
     os.environ["SEGVC_TIER"] = tier
     mod = importlib.import_module(modname)
     cls = mod.UNITS[idx]
     u = cls()
-    res = U.explore(u)
+    res = U.explore(u, prefix=prefix)
     return {
         "unit": res.unit,
         "module": modname,
@@ -87,7 +87,16 @@ def main(argv=None):
     if not units:
         print(f"no units for {args.prop}")
         return 2
-    jobs = [(m, i, args.tier) for m, i, _ in units]
+    jobs = []
+    for m, i, _ in units:
+        split = getattr(importlib.import_module(m).UNITS[i], "split", ())
+        if split and args.j > 1:
+            import itertools
+
+            for pre in itertools.product(*[range(k) for k in split]):
+                jobs.append((m, i, args.tier, tuple(pre)))
+        else:
+            jobs.append((m, i, args.tier, ()))
     if args.j > 1 and len(jobs) > 1:
         with mp.get_context("fork").Pool(min(args.j, len(jobs))) as pool:
             results = pool.map(_run_unit, jobs, chunksize=1)
